@@ -13,6 +13,7 @@ import (
 	"context"
 	"errors"
 	"fmt"
+	"io"
 	"sort"
 	"strings"
 	"sync"
@@ -50,12 +51,14 @@ type c02Call struct {
 	End  string    `json:"end"`            // ok | err | panic
 	Code int       `json:"code,omitempty"` // grpc code of "err"
 	PV   int       `json:"pv,omitempty"`   // kind of the panic value of "panic", see c02Panic
+	EV   int       `json:"ev,omitempty"`   // kind of the error value of "err", see c02ErrKinds (0: a status error with Code)
 }
 
 type c02Case struct {
 	T     int       `json:"t"` // server timeout in ticks; 0: no timeout interceptor
 	Full  bool      `json:"full,omitempty"`
 	NM    int       `json:"nm"`
+	MN    int       `json:"mn,omitempty"` // alphabet of the method names: 0 plain, 1 format verbs, 2 multi-byte, 3 1 KB long
 	Calls []c02Call `json:"calls"`
 }
 
@@ -109,12 +112,12 @@ func c02MakePlan(c c02Case, q c02Call) c02Plan {
 		}
 	}
 	p.f = e
-	p.risky = q.End == "panic" || (q.End == "err" && c02Unacceptable(codes.Code(q.Code))) || (p.d >= 0 && p.f >= p.d)
+	p.risky = q.End == "panic" || (q.End == "err" && c02Unacceptable(status.Code(c02ErrValue(q, 0)))) || (p.d >= 0 && p.f >= p.d)
 	return p
 }
 
 func c02Valid(c c02Case) bool {
-	if c.T < 0 || c.NM < 1 || c.NM > 3 || len(c.Calls) > 90 {
+	if c.T < 0 || c.NM < 1 || c.NM > 3 || len(c.Calls) > 90 || c.MN < 0 || c.MN > 3 {
 		return false
 	}
 	risky := make([]int, c.NM)
@@ -134,7 +137,7 @@ func c02Valid(c c02Case) bool {
 				return false
 			}
 		case "err":
-			if q.Code < 1 || q.Code > 16 {
+			if q.Code < 1 || q.Code > 16 || q.EV < 0 || q.EV >= len(c02ErrKinds) {
 				return false
 			}
 		default:
@@ -189,6 +192,63 @@ func c02Panic(kind, call int) {
 	panic(fmt.Sprintf("c02 rpc handler panic, call %d", call))
 }
 
+var c02ErrKinds = []string{"status", "errors.New", "context.DeadlineExceeded", "context.Canceled", "wrapped-status",
+	"io.EOF", "custom-type-with-GRPCStatus", "typed-nil-in-interface"}
+
+type c02CustomErr struct {
+	code codes.Code
+	msg  string
+}
+
+func (e *c02CustomErr) Error() string {
+	if e == nil {
+		return c02OwnMsg + " typed nil"
+	}
+	return e.msg
+}
+func (e *c02CustomErr) GRPCStatus() *status.Status {
+	if e == nil {
+		return status.New(codes.Unknown, c02OwnMsg+" typed nil")
+	}
+	return status.New(e.code, e.msg)
+}
+
+// c02ErrValue builds the error VALUE a handler returns. The statement: the handler's
+// result reaches the caller unchanged when it finishes before the deadline.
+func c02ErrValue(q c02Call, call int) error {
+	msg := fmt.Sprintf("%s %d", c02OwnMsg, call)
+	switch q.EV {
+	case 1:
+		return errors.New(msg)
+	case 2:
+		return context.DeadlineExceeded
+	case 3:
+		return context.Canceled
+	case 4:
+		return fmt.Errorf("%s wrapped: %w", msg, status.Error(codes.Code(q.Code), msg))
+	case 5:
+		return io.EOF
+	case 6:
+		return &c02CustomErr{code: codes.Code(q.Code), msg: msg}
+	case 7:
+		var e *c02CustomErr
+		return e // non-nil error interface holding a nil pointer
+	}
+	return status.Error(codes.Code(q.Code), msg)
+}
+
+func c02MethodSuffix(kind int) string {
+	switch kind {
+	case 1:
+		return "%s%d%!(EXTRA)%v"
+	case 2:
+		return "héllo世界"
+	case 3:
+		return strings.Repeat("LongMethodName", 74)
+	}
+	return ""
+}
+
 func c02Compose(ints []grpc.UnaryServerInterceptor, info *grpc.UnaryServerInfo, final grpc.UnaryHandler) grpc.UnaryHandler {
 	h := final
 	for i := len(ints) - 1; i >= 0; i-- {
@@ -234,6 +294,7 @@ func c02Run(t *testing.T, c c02Case) (v kit.Verdict) {
 	plans := make([]c02Plan, n)
 	arr := make([]int64, n)
 	resps := make([]*string, n)
+	errs := make([]error, n)
 	endUS := int64(0)
 	for i, q := range c.Calls {
 		obs[i] = &c02Obs{}
@@ -241,6 +302,7 @@ func c02Run(t *testing.T, c c02Case) (v kit.Verdict) {
 		arr[i] = int64(q.At)*c02TickUS + int64(i+1)
 		s := fmt.Sprintf("resp-%d", i)
 		resps[i] = &s
+		errs[i] = c02ErrValue(q, i)
 		for _, x := range []int{plans[i].f, plans[i].d, q.Cn, q.DL} {
 			if e := arr[i] + int64(x+1)*c02TickUS; e > endUS {
 				endUS = e
@@ -311,11 +373,11 @@ func c02Run(t *testing.T, c c02Case) (v kit.Verdict) {
 					case "panic":
 						c02Panic(q.PV, i)
 					case "err":
-						return nil, status.Error(codes.Code(q.Code), fmt.Sprintf("%s %d", c02OwnMsg, i))
+						return nil, errs[i]
 					}
 					return resps[i], nil
 				}
-				info := &grpc.UnaryServerInfo{FullMethod: fmt.Sprintf("/c02.Case%d/M%d", seq, q.M)}
+				info := &grpc.UnaryServerInfo{FullMethod: fmt.Sprintf("/c02.Case%d/M%d%s", seq, q.M, c02MethodSuffix(c.MN))}
 				o.resp, o.err = c02Compose(ints, info, final)(ctx, fmt.Sprintf("req-%d", i))
 			}()
 		}
@@ -333,7 +395,7 @@ func c02Run(t *testing.T, c c02Case) (v kit.Verdict) {
 	case res.Leak && !c.Full:
 		v.Fail = "a goroutine of the interceptor chain is still blocked after every call returned and every handler finished: " + res.String()
 	default:
-		v.Fail = c02Judge(c, plans, arr, resps, obs, cls)
+		v.Fail = c02Judge(c, plans, arr, resps, errs, obs, cls)
 	}
 	v.NonTrivial = cls["panic"] || cls["finish>deadline"] || cls["finish=deadline"]
 	for k := range cls {
@@ -343,7 +405,10 @@ func c02Run(t *testing.T, c c02Case) (v kit.Verdict) {
 	return v
 }
 
-func c02Judge(c c02Case, plans []c02Plan, arr []int64, resps []*string, obs []*c02Obs, cls map[string]bool) string {
+func c02Judge(c c02Case, plans []c02Plan, arr []int64, resps []*string, errs []error, obs []*c02Obs, cls map[string]bool) string {
+	if c.MN > 0 {
+		cls[fmt.Sprintf("method-name-alphabet-%d", c.MN)] = true
+	}
 	if c.Full {
 		cls["full-chain"] = true
 	} else {
@@ -372,6 +437,13 @@ func c02Judge(c c02Case, plans []c02Plan, arr []int64, resps []*string, obs []*c
 					return "want the handler's response and a nil error"
 				}
 			case "err":
+				if q.EV > 0 {
+					// any other error value must come back as the very same value
+					if o.resp != nil || o.err != errs[i] {
+						return fmt.Sprintf("want nil response and the handler's own error value (%s: %v)", c02ErrKinds[q.EV], errs[i])
+					}
+					break
+				}
 				st, ok := status.FromError(o.err)
 				if o.resp != nil || !ok || st.Code() != codes.Code(q.Code) || st.Message() != fmt.Sprintf("%s %d", c02OwnMsg, i) {
 					return fmt.Sprintf("want nil response and the handler's status %v", codes.Code(q.Code))
@@ -411,6 +483,9 @@ func c02Judge(c c02Case, plans []c02Plan, arr []int64, resps []*string, obs []*c
 		}
 		if q.End == "err" {
 			cls["handler-error"] = true
+			if q.EV > 0 {
+				cls["error-value:"+c02ErrKinds[q.EV]] = true
+			}
 		}
 		if len(p.kinds) == 2 {
 			cls["cancel=deadline"] = true
@@ -484,6 +559,9 @@ func c02Gen(rt *rapid.T) c02Case {
 	if rapid.IntRange(0, 3).Draw(rt, "toff") != 0 {
 		c.T = rapid.SampledFrom([]int{1, 2, 5, 10, 20, 100, 1000, 20000}).Draw(rt, "t")
 	}
+	if rapid.IntRange(0, 3).Draw(rt, "names") == 0 {
+		c.MN = rapid.IntRange(1, 3).Draw(rt, "mn")
+	}
 	d := c.T
 	if d == 0 {
 		d = 20
@@ -535,6 +613,12 @@ func c02Gen(rt *rapid.T) c02Case {
 				cs = append(cs, 4, 4, 13, 13, 14, 12, 15)
 			}
 			q.Code = rapid.SampledFrom(cs).Draw(rt, "code")
+			if rapid.IntRange(0, 2).Draw(rt, "errvalue") == 0 {
+				q.EV = rapid.IntRange(1, len(c02ErrKinds)-1).Draw(rt, "ev")
+			}
+			if benign {
+				q.EV = 0
+			}
 		}
 		if c02MakePlan(c, q).risky {
 			if benign {
